@@ -61,10 +61,10 @@ def aligned(model, comps, segs, pf, fl, follow_flag):
             return memo[key]
         seg = segs[j]
         r = False
-        if ref_aut.is_gstar(seg, pf):
+        if refglob._is_gstar(seg, pf):
             # consecutive globstars merge; the merged one follows links if any member does
             j2 = j
-            while j2 + 1 < m and ref_aut.is_gstar(segs[j2 + 1], pf):
+            while j2 + 1 < m and refglob._is_gstar(segs[j2 + 1], pf):
                 j2 += 1
             k = max(segs[x][0][1] for x in range(j, j2 + 1))
             fol = (follow_flag and not fl.L) or k == 3
@@ -154,8 +154,7 @@ def check_state(desc, sc, pats, flagsets, res):
             has_sep = any(nd[0] == 'sep' for nd in a2)
             pf = ref_aut.PathFlags(globstar=fl.G, globstarlong=fl.L)
             if fl.X and not has_sep:
-                segs = [(('star', 3 if (fl.L and fl.F) else 2),)] + list(segs)
-                pf = ref_aut.PathFlags(globstar=True, globstarlong=fl.L)
+                segs = [(refglob.IMPLICIT3 if (fl.L and fl.F) else refglob.IMPLICIT2)] + list(segs)
             for p in mon.log:
                 rel = p[len(sc.root):].lstrip('/') if p.startswith(sc.root) else p
                 if rel in ('', '.'):
